@@ -188,8 +188,10 @@ class TransportIdMarshall(Unit):
             out.append({"kind": "iscsi", "len": n, "isid": None})
         for n in (1, 2, 3, 4, 17, 200):
             out.append({"kind": "iscsi", "len": n, "isid": "0123456789ab"})
-        out.append({"kind": "iscsi-refusal", "what": "isid-without-format"})
-        out.append({"kind": "iscsi-refusal", "what": "format-without-isid"})
+        # consistency of the iSCSI TransportID (C17): every way of giving / not giving the format flag x the session id
+        for fmt in ("absent", "None", "0", "1"):
+            for isid in ("absent", "None", "empty", "00ab"):
+                out.append({"kind": "iscsi-consistency", "fmt": fmt, "isid": isid})
         return out
 
     def case_id(self, case):
@@ -202,12 +204,12 @@ class TransportIdMarshall(Unit):
 
     def run(self, X, case, a):
         K = cls_of("scsi_cdb_persistentreservein", "PersistentReserveInReadFullStatus")
-        if case["kind"] == "iscsi-refusal":
+        if case["kind"] == "iscsi-consistency":
             d = {"protocol_id": 5, "iscsi_name": "iqn.x"}
-            if case["what"] == "isid-without-format":
-                d["iscsi_initiator_session_id"] = "00ab"
-            else:
-                d["tpid_format"] = 1
+            if case["fmt"] != "absent":
+                d["tpid_format"] = {"None": None, "0": 0, "1": 1}[case["fmt"]]
+            if case["isid"] != "absent":
+                d["iscsi_initiator_session_id"] = {"None": None, "empty": "", "00ab": "00ab"}[case["isid"]]
             self.expected = None
             return X.call(K.marshall_transport_id, d)
         if case["kind"] == "iscsi":
@@ -221,11 +223,24 @@ class TransportIdMarshall(Unit):
             self.d, self.expected = transport_id_dict_and_bytes(case["kind"], a, "t.")
         r = X.call(K.marshall_transport_id, self.d)
         back = X.call(K.unmarshall_transport_id, r)
+        # conversely (C06): the canonical bytes of the standard, parsed and rebuilt
+        canon = V.SBytes(list(self.expected), True) if V.contains_sym(list(self.expected)) else bytearray(self.expected)
+        self.rebuilt = X.call(K.marshall_transport_id, X.call(K.unmarshall_transport_id, canon))
         return r, back
 
     def ensures(self, case, a, out, X):
-        if case["kind"] == "iscsi-refusal":
-            yield "C17", "inconsistent-TransportID-refused-with-ValueError", out.kind == "raise" and isinstance(out.exc, ValueError)
+        if case["kind"] == "iscsi-consistency":
+            flag, sid = case["fmt"] == "1", case["isid"] == "00ab"
+            if flag != sid:
+                yield "C17", "inconsistent-TransportID-refused-with-ValueError (%s)" % ("session id without the format flag" if sid else "format flag without a session id"), out.kind == "raise" and isinstance(out.exc, ValueError)
+            elif case["fmt"] == "None":
+                # the flag given as None and no session id: neither refusal class of the property, no format to check
+                yield "C17", "no-claim-for-tpid_format=None-without-session-id", True
+            else:
+                yield "C17", "consistent-TransportID-accepted (%s)" % out.describe()[:60], out.kind == "return"
+                if out.kind == "return":
+                    exp = D.iscsi_transport_id("iqn.x", "00ab" if sid else None)
+                    yield "C05", "TransportID-bytes", V.bytes_eq(out.value, bytes(exp))
             return
         if out.kind != "return":
             yield "C05", "marshalls-without-error (raised %s)" % type(out.exc).__name__, False
@@ -237,6 +252,7 @@ class TransportIdMarshall(Unit):
             got = list(r)
             for i, e in enumerate(self.expected):
                 yield "C05", "TransportID:byte%d" % i, got[i] == e
+        yield "C06", "marshall(unmarshall(canonical TransportID))==canonical", V.bytes_eq(self.rebuilt, V.SBytes(list(self.expected), False)) if V.is_buffer(self.rebuilt) else False
         # C06: parsing what was built returns the original values
         for k, v in self.d.items():
             g = back.get(k, None) if isinstance(back, dict) else None
@@ -346,7 +362,9 @@ DEVICE_TYPE_SPELLINGS = {
     0x00: [0x00, "Direct access block device (e.g., magnetic disk)"],
     0x01: [0x01, "Stream or Tape", "Sequential access device (e.g., magnetic tape)"],
     0x03: [0x03, "Processor device"],
+    0x04: [0x04, "Write-once device (e.g., some optical disks)"],  # SPC-4 (LID1) only
     0x05: [0x05, "CD/DVD device"],
+    0x07: [0x07, "Optical memory device (e.g., some optical disks)"],  # SPC-4 (LID1) only
     0x0E: [0x0E],
 }
 
@@ -383,6 +401,10 @@ class XCopyUnit(_ListUnit):
             {"targets": [[0x03, 0, "naa-5"], [0x0E, 0, "naa-6"]], "segments": [[0x0D, 0], [0x0B, 0], [0x0C, 0]], "inline": 3},
             {"targets": [[0x00, 0, "eui64-8"]], "segments": [[0x02, 2]], "inline": 0},
         ]
+        if not self.lid4:
+            # every peripheral device type of the SPC-4 table occurs in some shape (00 01 03 04 05 07 0E)
+            sh.append({"targets": [[0x04, 0, "naa-6"], [0x07, 1, "naa-5"]], "segments": [[0x02, 0]], "inline": 0})
+            sh.append({"targets": [[0x07, 0, "naa-2"], [0x04, 1, "naa-6"]], "segments": [], "inline": 0})
         return sh
 
     def cases(self, tier):
